@@ -45,6 +45,11 @@ SYNC_SAFE = {"push", "pop", "shift", "unshift", "splice", "slice", "reverse", "f
              "includes", "join", "at", "get"}
 B_NOT_OK = {"forin", "objkeys", "toString", "isFrozen"}
 KNOWN_CLASS_LENIC = "array-length-assign-inline-cache"
+CLASS_SETLEN = "array-set-length-keeps-elements"            # fixes.d/C14-array-set-length-keeps-elements.patch
+CLASS_RECEIVER = "set-by-value-fast-path-ignores-receiver"   # fixes.d/C14-set-by-value-receiver.patch
+# spec-oracle ops (custom / species constructors, `super[i]`): on since both fixes are in /repo (ddf3a83, 08cf6a6);
+# a regression reports one of the two classes above (see design.d/C14.md "Deepening round")
+EXT_FAMILIES = True
 CHUNK_TIMEOUT = 900      # seconds per process for a chunk of histories
 SINGLE_TIMEOUT = 120     # seconds for one history re-run alone after its chunk failed
 
@@ -182,7 +187,7 @@ def in_sync(fa, fb):
             and ext_of(fa[2]) == ext_of(fb[2]) and len_small(fa[2]))
 
 
-MARKERS = ("!raw", "!order", "!unsorted", "!key", "!attrs", "!notarray", "dump!", "arr!", "panic", "missing")
+MARKERS = ("!raw", "!order", "!unsorted", "!key", "!attrs", "!notarray", "dump!", "arr!", "panic", "missing", "DIFF ")
 
 
 def compare_history(hid, h, hout, mout, mspec, stats):
@@ -372,6 +377,15 @@ def shrink(harness, h, mm, budget=120):
 
 def classify(harness, h, mm):
     """A stable class label computed from the failing case itself."""
+    if mm.get("marker") == "DIFF ":
+        op, line = mm.get("op", ""), str(mm.get("impl"))
+        m = re.search(r"builtin=(\d+)\[([^\]]*)\] spec=(\d+)\[([^\]]*)\]", line)
+        if (op.split()[1:2] and op.split()[1] in ("ofctor", "fromctor", "speciesSlice", "speciesSplice", "speciesConcat") and m
+                and m.group(1) == m.group(3) and m.group(2).startswith(m.group(4)) and m.group(2) != m.group(4)):
+            return CLASS_SETLEN          # right length, right elements below it, stale elements at or above it
+        if op.startswith("q superset") and "changed the prototype array" in line:
+            return CLASS_RECEIVER
+        return None
     if any(o.startswith("lenic") for o in h["ops"]) and mm.get("op", "").startswith("lenic"):
         alt = dict(h, ops=[("len" + o[5:]) if o.startswith("lenic") else o for o in h["ops"]])
         if check_one(harness, alt) is None:
@@ -394,7 +408,8 @@ def report(run, harness, h, mm):
             "array-vs-proxy": "(a) real array = (c) Proxy-wrapped array",
             "array-vs-arraylike": "(a) real array = (b) equivalent plain array-like through Array.prototype.<m>.apply",
             "array-vs-arraylike-state": "(a) real array = (b) equivalent plain array-like (state after the call)",
-            "invariant-marker": "raw storage contents = JS-visible descriptors; own keys ascending; result arrays ordinary",
+            "invariant-marker": "raw storage contents = JS-visible descriptors; own keys ascending; result arrays ordinary; "
+                                "builtin = ECMA-262 transliteration for custom-constructor / species results and super[i] stores (DIFF)",
             "query-mutated-state": "a non-mutating method left the array unchanged",
             "impl-vs-model": "boa = ECMA-262 algorithms (coq/C14/ArraySpec.v) on the same history",
             "proxy-vs-model": "boa (Proxy-wrapped array) = ECMA-262 algorithms on the same history",
@@ -415,11 +430,13 @@ def build_model():
     return rc == 0 and os.path.exists(MODEL_BIN), (out + err)[-2000:]
 
 
-def corpus_histories():
+def corpus_histories(ext=False):
     d = os.path.join(vlib.CORPUS, "C14")
     out = []
     if os.path.isdir(d):
         for f in sorted(os.listdir(d)):
+            if f.startswith("ext-") and not ext:
+                continue          # spec-oracle cases of the two pending findings (see EXT_FAMILIES)
             if f.endswith(".json"):
                 try:
                     o = json.load(open(os.path.join(d, f)))
@@ -465,8 +482,10 @@ def main():
     nh = int(os.environ.get("C14_N", 0)) or (1500 if run.quick else 8000)
     if broken is not None:
         nh *= 2
-    g = c14_hist.Gen(run.rng, thorough=not run.quick)
-    hists = corpus_histories()
+    ext = EXT_FAMILIES or bool(os.environ.get("C14_EXT"))
+    g = c14_hist.Gen(run.rng, thorough=not run.quick, ext=ext)
+    run.cov["ext_families"] = ext
+    hists = corpus_histories(ext)
     ncorpus = len(hists)
     fam = Stats()
     for i in range(nh):
